@@ -74,18 +74,50 @@ def write_state(path, k, state, gold_ir_factory, stale_ir_factory, method=False,
         f.write(src)
 
 
-def run_sync(paths, truth, method, given):
-    """API call exactly as __main__ builds it. `given`: kinds whose file is passed."""
+def handwritten(src, k, method):
+    """The truth is user-written, not in doctrans' normal form: a comment, plain `ast.unparse` layout instead of black,
+    and a docstring that ends with a line of its own. It describes the same interface."""
+    tree = ast.parse(src)
+    defs, _ = find_defs(src, k, method)
+    for node in ast.walk(tree):
+        if isinstance(node, (ast.ClassDef, ast.FunctionDef)) and node.name == NAMES[k] and node.body \
+                and isinstance(node.body[0], ast.Expr) and isinstance(getattr(node.body[0].value, "value", None), str):
+            node.body[0].value.value = node.body[0].value.value.rstrip() + "\n" + ("        " if method and k == "function" else "    ")
+    return "# hand-written source of truth\nTRUTH_MARKER = 'kept'\n\n" + ast.unparse(tree) + "\n"
+
+
+def run_sync(paths, truth, method, given, style="abs"):
+    """API call exactly as __main__ builds it. `given`: kinds whose file is passed. `style`: how the files are spelled on
+    the "command line" (absolute, relative to the cwd, through a symlinked directory); the truth file is passed
+    canonicalised, as __main__ does."""
     from doctrans.conformance import ground_truth
 
+    d = os.path.dirname(paths[truth])
+    spell = lambda p: p
+    link = None
+    if style == "relative":
+        spell = lambda p: os.path.basename(p)
+    elif style == "symlink":
+        link = d.rstrip(os.sep) + "_lnk"
+        if not os.path.islink(link):
+            os.symlink(d, link)
+        spell = lambda p: os.path.join(link, os.path.basename(p))
     ns = {}
     for k in KIND_KEYS:
-        ns[plural(k)] = [paths[k]] if k in given else []
+        ns[plural(k)] = [spell(paths[k])] if k in given else []
         ns[k + "_names"] = [target_name(k, method)]
     ns["truth"] = truth
     out = io.StringIO()
-    with contextlib.redirect_stdout(out), contextlib.redirect_stderr(io.StringIO()):
-        res = ground_truth(Namespace(**ns), os.path.realpath(paths[truth]))
+    cwd = os.getcwd()
+    try:
+        if style == "relative":
+            os.chdir(d)
+        with contextlib.redirect_stdout(out), contextlib.redirect_stderr(io.StringIO()):
+            res = ground_truth(Namespace(**ns), os.path.realpath(paths[truth]))
+    finally:
+        os.chdir(cwd)
+        if link is not None and os.path.islink(link):
+            os.remove(link)
     return res, out.getvalue()
 
 
